@@ -28,6 +28,7 @@ class CompilerModel:
         self._alloc = {}
         self._renderer = None
         self.renderer_note = None
+        self.context_threaded = False
 
     @property
     def flow(self):
@@ -268,6 +269,8 @@ class CompilerModel:
                 out.extend(self.code_of_value(st, p, markers, issues))
             return out
         if isinstance(v, CallV) and v.name == 'compile_body':
+            if any(not (isinstance(a, Const) and a.v is None) for a in v.args[1:]):
+                self.context_threaded = True        # compile_body(body, <context>): the induction hypothesis CB<body> ignores the context
             return [('CB', self.src_of_value(st, v.args[0], markers))]
         if isinstance(v, New):
             role = CODE_ROLES.get(v.cls.name)
@@ -474,6 +477,58 @@ def concrete_bodies(depth, goals=('p', 'q', 'r', 's')):
             yield t
 
 
+def comb_bodies(depth, goals=('p', 'q', 'r', 's', 't')):
+    """deeper bodies along one spine: at every node at most one operand is compound, the others are a fresh call or true;
+    if-then-else counts as one ternary node (so else-if chains, nested conditions and long conjunctions are covered to
+    the given depth without the cost of all trees)"""
+    def has_cut(t):
+        return t == ('Cut',) or (isinstance(t, tuple) and any(has_cut(x) for x in t[1:] if isinstance(x, tuple)))
+
+    def leaves(gi):
+        if gi < len(goals):
+            yield ('call', goals[gi]), gi + 1
+        yield ('True',), gi
+
+    def gen(d, gi):
+        if d == 1:
+            yield from leaves(gi)
+            yield ('Cut',), gi
+            yield ('Fail',), gi
+            return
+        for s, g1 in gen(d - 1, gi):
+            if not has_cut(s):
+                yield ('Neg', s), g1
+            for l, g2 in leaves(g1):
+                for op in ('Conj', 'Disj'):
+                    yield (op, s, l), g2
+                    yield (op, l, s), g2
+                yield ('IfThen', l, s), g2
+                if not has_cut(s):
+                    yield ('IfThen', s, l), g2
+                for l2, g3 in leaves(g2):
+                    yield ('Disj', ('IfThen', l, l2), s), g3
+                    yield ('Disj', ('IfThen', l, s), l2), g3
+                    if not has_cut(s):
+                        yield ('Disj', ('IfThen', s, l), l2), g3
+    seen = set()
+    for t, _ in gen(depth, 0):
+        if t not in seen:
+            seen.add(t)
+            yield t
+
+
+def all_bodies(depth, combs=0):
+    seen = set()
+    for t in concrete_bodies(depth):
+        seen.add(t)
+        yield t
+    if combs:
+        for t in comb_bodies(combs):
+            if t not in seen:
+                seen.add(t)
+                yield t
+
+
 def body_to_new(cm, t):
     inv = {v: k for k, v in BODY_ROLES.items()}
     k = t[0]
@@ -489,7 +544,7 @@ def body_to_new(cm, t):
 
 def _bounded_worker(args):
     """evaluate compile_body on a slice of the concrete bodies; -> (bodies, runs, problems)"""
-    repo_root, depth, scope, lo, step = args
+    repo_root, depth, scope, lo, step, combs = args
     from .model import Repo
     cm = CompilerModel(Repo(repo_root))
     comp = cm.comp
@@ -509,7 +564,7 @@ def _bounded_worker(args):
     sys.setrecursionlimit(max(sys.getrecursionlimit(), 20000))
     n = runs = 0
     problems = []
-    for i, t in enumerate(concrete_bodies(depth)):
+    for i, t in enumerate(all_bodies(depth, combs)):
         if i % step != lo:
             continue
         n += 1
@@ -550,7 +605,7 @@ def _bounded_worker(args):
     return n, runs, problems
 
 
-def rule_compiler_bounded(cm, rep, rid, depth=3, scope=2, jobs=16):
+def rule_compiler_bounded(cm, rep, rid, depth=3, scope=2, jobs=16, combs=0):
     rep.rule(rid, 'bounded whole-function check: compile_body (helpers and recursive calls inlined) is symbolically evaluated on '
                   'every concrete clause body up to depth %d; the resulting target code must have the same trace as the reference '
                   'semantics of the body for every behaviour (0..%d solutions) of its goals' % (depth, scope))
@@ -558,11 +613,12 @@ def rule_compiler_bounded(cm, rep, rid, depth=3, scope=2, jobs=16):
     import os
     depth = int(os.environ.get('VERIF_BOUNDED_DEPTH') or depth)
     import multiprocessing
-    total = sum(1 for _ in concrete_bodies(depth))
+    combs = int(os.environ.get('VERIF_BOUNDED_COMBS') or combs)
+    total = sum(1 for _ in all_bodies(depth, combs))
     import os
     jobs = int(os.environ.get('VERIF_INNER_JOBS') or jobs)
     jobs = max(1, min(jobs, total // 50 or 1))
-    tasks = [(cm.repo.root, depth, scope, i, jobs) for i in range(jobs)]
+    tasks = [(cm.repo.root, depth, scope, i, jobs, combs) for i in range(jobs)]
     if jobs == 1:
         results = [_bounded_worker(tasks[0])]
     else:
@@ -598,6 +654,10 @@ def rule_body_rules(cm, rep, rid, which, scope=2):
                       'whole-function check decides this tree' % (str(e)[:120] or type(e).__name__))
         rep.ok(rid, 'compile_body:rules', 'not compositional - see the bounded check', None, nontrivial=False)
         return [], [], []
+    if cm.context_threaded:
+        rep.note(rid, 'compile_body passes a context argument down its recursion: the per-rule induction (recursive results taken as correct '
+                      'for their sub-body alone) does not cover what that argument changes; this is decided by the bounded whole-function '
+                      'check only, to the depth stated there')
     rep.minimum('rules extracted from compile_body', len(rules), 18)
     n = 0
     total_models = 0
